@@ -111,11 +111,12 @@ def _white(shard):
         out["nontrivial"] += 1
         if not (abs(g.rms ** 2 - psd * fs) <= 1e-12 * psd * fs) or g.fs != fs:
             out["failures"].append(fw.fail("white/rms", f"white_noise(fs={fs}, psd={psd}): rms^2={g.rms ** 2!r} != psd*fs={psd * fs!r}", dict(shard)))
-        x = g.get_series(7)
-        # samples are rms * standard normal draws of the seeded generator
-        z = np.random.default_rng(1).normal(size=7)
-        if not np.allclose(x, g.rms * z, rtol=1e-12, atol=0):
-            out["failures"].append(fw.fail("white/scale", f"white_noise(fs={fs}, psd={psd}) samples are not rms x standard-normal draws", dict(shard)))
+        # the scale enters the samples linearly: the same seed with psd*4 gives exactly twice the samples (which random
+        # source is used is the implementation's business)
+        x1 = np.asarray(g.get_series(7))
+        x2 = np.asarray(noise.white_noise(fs, psd=4 * psd, seed=1).get_series(7))
+        if x1.shape != (7,) or not np.allclose(x2, 2 * x1, rtol=1e-12, atol=0):
+            out["failures"].append(fw.fail("white/scale", f"white_noise(fs={fs}, psd={psd}): quadrupling psd with the same seed does not double the samples", dict(shard)))
     out["samples"].append({"white": "fs x psd grid", "relation": "rms^2 = psd*fs"})
     return out
 
